@@ -9,7 +9,7 @@
    The compu-method half is in Properties/C07.v; general parameter trees are
    correspondence + oracle only. *)
 From Coq Require Import ZArith List Bool.
-From OV Require Import Base.Bytes Base.Wire Generated Model.Str Model.Codec Proofs.BytesProofs Proofs.AtomicProofs Proofs.CodecProps Proofs.FlatProofs.
+From OV Require Import Base.Bytes Base.Wire Generated Model.Str Model.Codec Proofs.BytesProofs Proofs.AtomicProofs Proofs.CodecProps Proofs.FlatProofs Proofs.TreeProofs Proofs.TreeWireProofs.
 Import ListNotations.
 Open Scope Z_scope.
 
@@ -66,3 +66,19 @@ Theorem C03_flat_example :
              encode_msg (map mkp fl) None (VDict (fvals vv (filter is_value fl))) <> Ok ([34; 188; 250], false)).
 Proof. exact reencode_example. Qed.
 Print Assumptions C03_flat_example.
+
+(* ---------- structures nested to any depth (Proofs/TreeWireProofs.v) ---------- *)
+(* a PDU which is the concatenation of canonical leaf slices (no stray bits above the bit lengths), for a message
+   whose parameters are standard-length parameters or STRUCTUREs of such, recursively: it decodes, and encoding the
+   decoded values with the same description yields the identical byte string, without overlap warning *)
+Theorem C03_nested_message_reencode : forall ts d,
+  (forall t, In t ts -> (wdepth t <= d)%nat /\ wwf t) ->
+  NoDup (map (fun t => pname (w_p (t_w t))) ts) ->
+  let ws := map t_w ts in
+  let ps := map w_p ws in
+  let msg := concat (flat_map leaves ts) in
+  (3 * d + 3 <= fuel_of ps)%nat ->
+  decode_msg ps msg = Ok (VDict (out_dict (map t_member (map to_f ts)))) /\
+  encode_msg ps None (VDict (in_dict (map as_m ws))) = Ok (msg, false).
+Proof. exact tree_reencode. Qed.
+Print Assumptions C03_nested_message_reencode.
